@@ -81,6 +81,28 @@ impl Leafy for String {
     }
 }
 
+/// `&'a str` (borrowed from the frame on the deserialize side; built by leaking on the serialize side)
+impl<'a> Leafy for &'a str {
+    fn build(it: &mut dyn Iterator<Item = Leaf>) -> Self {
+        let b = it.next().expect("value list too short").expect("None for &str");
+        Box::leak(String::from_utf8(b).expect("utf8").into_boxed_str())
+    }
+    fn dump(&self, out: &mut Vec<Leaf>) {
+        out.push(Some(self.as_bytes().to_vec()))
+    }
+}
+
+/// `&'a T` for a derived struct `T` used as `#[scylla(flatten)] inner: &'a T` (serialize side only; built by leaking):
+/// reaches `impl SerializeRowByName for &T` / `impl SerializeRowInOrder for &T` (`_macro_internal.rs:58-67, 108-116`)
+impl<'a, T: Leafy + 'static> Leafy for &'a T {
+    fn build(it: &mut dyn Iterator<Item = Leaf>) -> Self {
+        Box::leak(Box::new(T::build(it)))
+    }
+    fn dump(&self, out: &mut Vec<Leaf>) {
+        (**self).dump(out)
+    }
+}
+
 impl<T: Leafy> Leafy for Option<T> {
     fn build(it: &mut dyn Iterator<Item = Leaf>) -> Self {
         match it.next().expect("value list too short") {
@@ -170,7 +192,7 @@ pub type DeFn = fn(&[Col], Option<&[u8]>) -> Result<Vec<Leaf>, DeErr>;
 pub struct StructInfo {
     pub name: &'static str,
     /// `value` (SerializeValue + DeserializeValue), `svalue` (SerializeValue), `row` (SerializeRow + DeserializeRow),
-    /// `srow` (SerializeRow)
+    /// `srow` (SerializeRow); `bvalue` / `brow` / `bsrow`: the same for a struct with a lifetime parameter `<'a>`
     pub kind: &'static str,
     /// tokens inside the struct-level `#[scylla(..)]`
     pub sattr: &'static str,
@@ -289,7 +311,69 @@ where
     Ok(out)
 }
 
+/// the same as `de_value` / `de_value_raw` with the lifetimes spelled out, for structs `S<'a>` that borrow from the frame
+pub fn de_value_in<'f, 'm, T>(typ: &'m ColumnType<'m>, slice: Option<FrameSlice<'f>>, check: bool) -> Result<Vec<Leaf>, DeErr>
+where
+    T: Leafy + DeserializeValueTrait<'f, 'm>,
+{
+    if check {
+        <T as DeserializeValueTrait>::type_check(typ).map_err(DeErr::TypeCheck)?;
+    }
+    let v = <T as DeserializeValueTrait>::deserialize(typ, slice).map_err(DeErr::Deser)?;
+    let mut out = Vec::new();
+    v.dump(&mut out);
+    Ok(out)
+}
+
+pub fn de_row_in<'f, 'm, T>(specs: &'m [ColumnSpec<'m>], slice: FrameSlice<'f>, check: bool) -> Result<Vec<Leaf>, DeErr>
+where
+    T: Leafy + DeserializeRowTrait<'f, 'm>,
+{
+    if check {
+        <T as DeserializeRowTrait>::type_check(specs).map_err(DeErr::TypeCheck)?;
+    }
+    let v = <T as DeserializeRowTrait>::deserialize(ColumnIterator::new(specs, slice)).map_err(DeErr::Deser)?;
+    let mut out = Vec::new();
+    v.dump(&mut out);
+    Ok(out)
+}
+
+macro_rules! de_value_b {
+    ($name:ident, $check:expr) => {{
+        fn f(db: &[Col], bytes: Option<&[u8]>) -> Result<Vec<Leaf>, DeErr> {
+            let typ = udt_type(db);
+            let frame = Bytes::copy_from_slice(bytes.unwrap_or(&[]));
+            let slice = bytes.map(|_| FrameSlice::new(&frame));
+            de_value_in::<$name<'_>>(&typ, slice, $check)
+        }
+        f as DeFn
+    }};
+}
+
+macro_rules! de_row_b {
+    ($name:ident, $check:expr) => {{
+        fn f(db: &[Col], bytes: Option<&[u8]>) -> Result<Vec<Leaf>, DeErr> {
+            let specs = col_specs(db);
+            let frame = Bytes::copy_from_slice(bytes.expect("a row is never null"));
+            de_row_in::<$name<'_>>(&specs, FrameSlice::new(&frame), $check)
+        }
+        f as DeFn
+    }};
+}
+
 macro_rules! leafy_impl {
+    (<$lt:lifetime> $name:ident { $( $f:ident : $t:ty ),* }) => {
+        impl<$lt> Leafy for $name<$lt> {
+            #[allow(unused_variables)]
+            fn build(it: &mut dyn Iterator<Item = Leaf>) -> Self {
+                $name { $( $f: <$t as Leafy>::build(it) ),* }
+            }
+            #[allow(unused_variables)]
+            fn dump(&self, out: &mut Vec<Leaf>) {
+                $( Leafy::dump(&self.$f, out); )*
+            }
+        }
+    };
     ($name:ident { $( $f:ident : $t:ty ),* }) => {
         impl Leafy for $name {
             #[allow(unused_variables)]
@@ -329,9 +413,37 @@ macro_rules! def_struct {
         pub struct $name { $( #[scylla($($fattr)*)] pub $f : $t ),* }
         leafy_impl!($name { $( $f : $t ),* });
     };
+    ($kind:ident $name:ident ( $($sattr:tt)* ) { $( $f:ident : $t:ty [ $($fattr:tt)* ] ),* }) => {
+        def_struct_b!($kind $name ( $($sattr)* ) { $( $f : $t [ $($fattr)* ] ),* });
+    };
+}
+
+// structs with a lifetime parameter `'a` (borrowed `&'a str` fields, `#[scylla(flatten)] inner: &'a T`)
+macro_rules! def_struct_b {
+    (bvalue $name:ident ( $($sattr:tt)* ) { $( $f:ident : $t:ty [ $($fattr:tt)* ] ),* }) => {
+        #[derive(SerializeValue, DeserializeValue, Debug)]
+        #[scylla($($sattr)*)]
+        pub struct $name<'a> { $( #[scylla($($fattr)*)] pub $f : $t ),* }
+        leafy_impl!(<'a> $name { $( $f : $t ),* });
+    };
+    (brow $name:ident ( $($sattr:tt)* ) { $( $f:ident : $t:ty [ $($fattr:tt)* ] ),* }) => {
+        #[derive(SerializeRow, DeserializeRow, Debug)]
+        #[scylla($($sattr)*)]
+        pub struct $name<'a> { $( #[scylla($($fattr)*)] pub $f : $t ),* }
+        leafy_impl!(<'a> $name { $( $f : $t ),* });
+    };
+    (bsrow $name:ident ( $($sattr:tt)* ) { $( $f:ident : $t:ty [ $($fattr:tt)* ] ),* }) => {
+        #[derive(SerializeRow, Debug)]
+        #[scylla($($sattr)*)]
+        pub struct $name<'a> { $( #[scylla($($fattr)*)] pub $f : $t ),* }
+        leafy_impl!(<'a> $name { $( $f : $t ),* });
+    };
 }
 
 macro_rules! fns {
+    (bvalue $name:ident) => { (ser_value::<$name<'static>> as SerFn, Some(de_value_b!($name, true)), None::<EmptyFn>, Some(de_value_b!($name, false))) };
+    (brow $name:ident) => { (ser_row::<$name<'static>> as SerFn, Some(de_row_b!($name, true)), Some(row_is_empty::<$name<'static>> as EmptyFn), Some(de_row_b!($name, false))) };
+    (bsrow $name:ident) => { (ser_row::<$name<'static>> as SerFn, None, Some(row_is_empty::<$name<'static>> as EmptyFn), None::<DeFn>) };
     (value $name:ident) => { (ser_value::<$name> as SerFn, Some(de_value::<$name> as DeFn), None::<EmptyFn>, Some(de_value_raw::<$name> as DeFn)) };
     (svalue $name:ident) => { (ser_value::<$name> as SerFn, None, None::<EmptyFn>, None::<DeFn>) };
     (row $name:ident) => { (ser_row::<$name> as SerFn, Some(de_row::<$name> as DeFn), Some(row_is_empty::<$name> as EmptyFn), Some(de_row_raw::<$name> as DeFn)) };
@@ -387,6 +499,10 @@ family! {
     value V27 (flavor = "enforce_order", forbid_excess_udt_fields) { a: i32 [], b: i32 [] }
     value V28 (flavor = "enforce_order") { a: i32 [allow_missing], b: String [], c: i32 [allow_missing], d: String [allow_missing], e: i32 [], f: Option<i32> [allow_missing] }
     value V29 (flavor = "enforce_order") { a: i32 [allow_missing], b: i32 [allow_missing], c: i32 [] }
+    // allow_missing gaps in the MIDDLE of the declared order with two or more UDT fields after the gap (the saved-field
+    // path of the ordered deserialize walk: every field after a gap is filled from `saved_cql_field`)
+    value V37 (flavor = "enforce_order") { a: i32 [], b: String [allow_missing], c: i32 [], d: Option<i32> [allow_missing], e: String [] }
+    value V38 (flavor = "enforce_order", forbid_excess_udt_fields) { a: i32 [allow_missing], b: String [], c: Option<String> [allow_missing], d: i32 [] }
     // ---------------- the DEFAULT flavor (no `flavor = …`), raw identifiers, `crate = …` ----------------
     value VR1 () { r#type: i32 [], r#fn: Option<i32> [allow_missing], b: String [] }
     value VR2 (flavor = "enforce_order") { a: i32 [], r#match: String [rename = "mm", allow_missing, default_when_null], r#type: i32 [] }
@@ -448,4 +564,12 @@ family! {
     srow JR (flavor = "enforce_order") { r#match: i32 [], y2: String [rename = "yy"] }
     srow SR2 (flavor = "enforce_order") { inner: JR [flatten], r#type: String [] }
     srow S23 (flavor = "enforce_order", skip_name_checks) { a: i32 [], inner: J0 [flatten] }
+    // ---------------- a lifetime parameter: borrowed fields, `#[scylla(flatten)]` through a reference ----------------
+    bvalue B01 (flavor = "match_by_name") { a: &'a str [], b: i32 [allow_missing], c: Option<&'a str> [default_when_null] }
+    bvalue B02 (flavor = "enforce_order") { a: &'a str [allow_missing, default_when_null], s: String [skip], b: Option<i32> [allow_missing], c: &'a str [] }
+    brow BR1 (flavor = "match_by_name") { a: &'a str [], b: i32 [], c: Option<&'a str> [] }
+    brow BR2 (flavor = "enforce_order") { a: i32 [], b: &'a str [default_when_null] }
+    bsrow SF1 (flavor = "match_by_name") { a: &'a str [], inner: &'a I0 [flatten] }
+    bsrow SF2 (flavor = "enforce_order") { a: i32 [], inner: &'a J0 [flatten], b: &'a str [] }
+    bsrow SF3 (flavor = "match_by_name") { m: &'a S01 [flatten], k: String [] }
 }
